@@ -92,6 +92,31 @@ def generate(rng, tier, seed):
                     if len(ls) > 1:
                         c.fail(f"on one object the key block length depends on earlier wraps / the key length within the mask {m0}: lengths {sorted(ls)}")
                 yield c
+    # headers carrying each optional-block id the standard gives a meaning to (empty data and a few characters), and keys whose VALUE
+    # stands in a relation to the other arguments (the KBPK itself, its prefix, all-zero, a valid DES / AES key size or not): for a
+    # fixed header and mask the length is the same for every key within the mask
+    from props.tr31util import STANDARD_IDS
+    for ver, (bs, ksizes, ml) in VERS.items():
+        kbpk = rb(rng, ksizes[-1])
+        for bid in STANDARD_IDS:
+            for data in ("", "0001", "A1B2C3"):
+                for alg in ("T", "A"):
+                    c = Case(f"{ver}:standard-block-id", {"id": bid, "data": data, "alg": alg})
+                    c.key = (ver, bid, data, alg, "standard-id")
+                    h = make_header(rng, ver, [(bid, data)], alg=alg, reserved="00")
+                    m0 = eff_mask(alg, None, 0)
+                    seen = {}
+                    for key in (rb(rng, 5), rb(rng, 8), rb(rng, 16), rb(rng, 23), rb(rng, 24), bytes(16), kbpk[:16], kbpk[:m0] if len(kbpk) >= 8 else rb(rng, 8)):
+                        if len(key) > m0:
+                            continue
+                        w = call_impl("tr31.wrap", (kbpk, h, key), stream="tr31")
+                        if not w.ok:
+                            c.fail(f"wrap raised {w.err} for a key of {len(key)} bytes ({'the KBPK itself' if key == kbpk[:len(key)] else 'ordinary'}) under block id {bid}")
+                        else:
+                            seen.setdefault(len(w.value), len(key))
+                    if len(seen) > 1:
+                        c.fail(f"with optional block {bid}={data!r} the key block length depends on the key within the mask: {seen}")
+                    yield c
     # one object, the mask changing from call to call (explicit, then omitted, then another ...), the header given as an object or
     # as text (loaded), re-keyed and re-loaded in between: every block is sized by the mask of ITS call
     for ver, (bs, ksizes, ml) in VERS.items():
